@@ -284,8 +284,10 @@ def empties_corpus():
 def oracle_setsim(rng, n, stats, props, whiches=('jaccard', 'cosine', 'dice', 'overlap_coefficient', 'overlap'), adversarial_p=0.3, **gk):
     v = []
     fixed = list(empties_corpus()) if ('C09' in props and not gk) else []
+    prev_case = None
     for it in range(n + len(fixed)):
         which = rng.choice(whiches)
+        reconf = None
         if it < len(fixed):
             which, ts, L, R, lk, rk, la, ra, t, kw = fixed[it]
             if which not in whiches:
@@ -295,10 +297,17 @@ def oracle_setsim(rng, n, stats, props, whiches=('jaccard', 'cosine', 'dice', 'o
             if c is None:
                 continue
             which, ts, L, R, lk, rk, la, ra, t, kw = c
+        elif prev_case is not None and rng.random() < 0.12:
+            # the previous call's tokenizer OBJECT and tables again, after the caller re-configured the tokenizer in place:
+            # every string is now tokenized differently; nothing remembered about (object, string) may be used
+            which, ts, L, R, lk, rk, la, ra, t, kw = prev_case
+            reconf = ts.reconfigure(rng)
+            stats.hit('oracle.setsim.tokenizer_reconfigured')
         else:
             which, ts, L, R, lk, rk, la, ra, t, kw = gen_join_case(rng, stats, which, **gk)
         if isinstance(t, float) and t < 1e-150:
             continue
+        prev_case = (which, ts, L, R, lk, rk, la, ra, t, kw) if which != 'edit_distance' and it >= len(fixed) else None
         flag0 = ts.obj.get_return_set()
         try:
             out = call_join(which, L, R, lk, rk, la, ra, ts, t, kw, public=rng.random() < 0.3)
@@ -310,7 +319,10 @@ def oracle_setsim(rng, n, stats, props, whiches=('jaccard', 'cosine', 'dice', 'o
         stats.hit('oracle.join.rows', len(out))
         if ts.obj.get_return_set() != flag0 and 'C12' in props:
             v.append(viol('C12', 'tokenizer return_set flag changed by %s_join' % which, join_case(which, ts, L, R, lk, rk, la, ra, t, kw), flag0, ts.obj.get_return_set()))
-        v += check_setsim_run(which, ts, L, R, lk, rk, la, ra, t, kw, out, props)
+        vs = check_setsim_run(which, ts, L, R, lk, rk, la, ra, t, kw, out, props)
+        if reconf:
+            vs = [dict(x, case=dict(x['case'], tokenizer_reconfigured=reconf, note='same tokenizer object and tables as the previous call of this oracle run')) for x in vs]
+        v += vs
     return v
 
 
@@ -358,6 +370,13 @@ def adversarial_join_case(rng, which, stats):
     if rng.random() < 0.5:          # transposed roles: the big set probes
         lvals, rvals = rvals + filler, [lvals[0]] + lvals[len(filler) + 1:]
     ts = TokSpec('ws', return_set=rng.random() < 0.5)
+    if not ts.obj.get_return_set() and rng.random() < 0.6:
+        # a bag tokenizer and repeated tokens in the tightest pair: the joins work on SETS (they coerce the tokenizer), so
+        # repeats change neither the similarity nor the result — unless some stage counts the bag
+        lvals[0] = lvals[0] + ' ' + ' '.join([lvals[0].split(' ')[0]] * rng.randint(1, 3))
+        rvals[0] = rvals[0] + ' ' + ' '.join([rvals[0].split(' ')[-1]] * rng.randint(0, 2))
+        rvals[0] = rvals[0].strip()
+        stats.hit('oracle.adversarial.bag_repeats')
     L = make_frame(rng, lvals, key_kind='int', extra_cols=0, shuffle_cols=False, odd_index=False)
     R = make_frame(rng, rvals, key_kind='int', extra_cols=0, shuffle_cols=False, odd_index=False)
     kw = {'comp_op': '>=', 'allow_missing': False, 'out_sim_score': True, 'n_jobs': rng.choice([1, 1, 2]), 'allow_empty': True}
@@ -476,6 +495,7 @@ def oracle_filters(rng, n, stats, props, kinds=('size', 'prefix', 'position', 's
     """C04 safety (pair / tables / candset), C09 empties, C14 pruning promises, C06 candset row-wise + overlap exact"""
     v = []
     prev, earlier = None, []
+    reuse_tables, prev_tables = False, None
     fixed = filter_empties_corpus(kinds) if 'C09' in props else []
     for it in range(n + len(fixed)):
         forced = fixed[it] if it < len(fixed) else None
@@ -488,6 +508,14 @@ def oracle_filters(rng, n, stats, props, kinds=('size', 'prefix', 'position', 's
             kind, ts, f, d = prev
             prev_is_new = False
             stats.hit('oracle.filters.object_reused')
+            if d.get('measure', 'OVERLAP') != 'EDIT_DISTANCE' and rng.random() < 0.5:
+                # ... after the caller re-configured the tokenizer the filter holds (qval, padding, delimiters; not the mode)
+                mode0 = ts.obj.get_return_set()
+                how = ts.reconfigure(rng)
+                ts.obj.set_return_set(mode0)
+                earlier = earlier + [{'tokenizer_reconfigured': how}]
+                reuse_tables = rng.random() < 0.6
+                stats.hit('oracle.filters.tokenizer_reconfigured')
         else:
             prev_is_new = True
             kind = rng.choice(kinds)
@@ -510,6 +538,10 @@ def oracle_filters(rng, n, stats, props, kinds=('size', 'prefix', 'position', 's
         L, R, lk, rk, la, ra = gen_join_frames(rng, ts, stats, big=rng.random() < 0.3)
         if forced is not None:
             L, R, lk, rk, la, ra = forced[4:]
+        elif reuse_tables and prev_tables is not None:
+            L, R, lk, rk, la, ra = prev_tables      # the very strings the filter has seen under the old configuration
+        reuse_tables = False
+        prev_tables = (L, R, lk, rk, la, ra)
         case0 = {'ltable': frame_to_case(L), 'rtable': frame_to_case(R), 'l_key': lk, 'r_key': rk, 'l_attr': la, 'r_attr': ra}
         if earlier:
             case0['earlier_tables_on_this_filter_object'] = list(earlier)
@@ -1028,7 +1060,15 @@ def oracle_history(rng, n, stats):
         for step in range(rng.randint(2, 6)):
             tid = rng.randrange(2)
             ts = toks[tid]
-            kind = rng.choice(['join', 'join', 'filter', 'matcher', 'profile'])
+            kind = rng.choice(['join', 'join', 'filter', 'matcher', 'profile', 'join', 'filter'])
+            if step > 0 and rng.random() < 0.3:
+                # between two calls the caller re-configures the shared tokenizer object through its own setters; the next
+                # call must behave like the same call with a fresh tokenizer configured that way
+                how = ts.reconfigure(rng)
+                history.append('tokenizer %d: %s' % (tid, how))
+                stats.hit('oracle.history.reconfigured')
+                if ts.kind != 'qgram' and kind == 'join':
+                    pass
             flag0 = ts.obj.get_return_set()
             desc = None
             try:
@@ -1322,9 +1362,24 @@ def oracle_validation(rng, n, stats):
         which, ts, L, R, lk, rk, la, ra, t, kw = gen_join_case(rng, stats, n_jobs_choices=(1,))
         kw['allow_missing'] = False
         kind = rng.choice(['not_frame_l', 'not_frame_r', 'bad_tok', 'bad_key', 'bad_attr', 'bad_out', 'numeric_attr', 'dup_key', 'nan_key',
-                           'thr_low', 'thr_high', 'thr_nan', 'bad_op', 'ed_nonqgram', 'nonstring_value', 'id_clash', 'valid', 'valid'])
+                           'thr_low', 'thr_high', 'thr_nan', 'bad_op', 'ed_nonqgram', 'nonstring_value', 'id_clash', 'valid', 'valid', 'self_join_bad_key'])
         L2, R2, ts2, t2, kw2, lk2, la2 = L, R, ts, t, dict(kw), lk, la
+        rk2 = rk
         expect = None
+        if kind == 'self_join_bad_key':
+            # the SAME DataFrame object on both sides with two different key columns, one of them not a key (duplicates /
+            # a missing value): each side's key is validated on its own
+            if len(L) < 2 or L is R:
+                continue
+            L2 = L.copy()
+            L2['alt'] = pd.Series([L2[lk].iloc[0]] * len(L2) if rng.random() < 0.5 else [None] + list(L2[lk].iloc[1:]), dtype=object, index=L2.index)
+            R2 = L2
+            kw2['l_out_attrs'], kw2['r_out_attrs'] = None, None
+            if rng.random() < 0.5:
+                lk2, rk2 = lk, 'alt'
+            else:
+                lk2, rk2 = 'alt', lk
+            expect = AssertionError
         if kind == 'not_frame_l':
             L2, expect = [1, 2], TypeError
         elif kind == 'not_frame_r':
@@ -1391,14 +1446,15 @@ def oracle_validation(rng, n, stats):
         tok_arg = 'not a tokenizer' if kind == 'bad_tok' else ts2.obj
         flag0 = ts2.obj.get_return_set()
         snapL, snapR = snapshot(L2), snapshot(R2)
-        case = dict(join_case(which, ts2, L2 if isinstance(L2, pd.DataFrame) else None, R2 if isinstance(R2, pd.DataFrame) else None, lk2, rk, la2, ra, t2, kw2), invalid=kind)
+        ra2 = la2 if kind == 'self_join_bad_key' else ra
+        case = dict(join_case(which, ts2, L2 if isinstance(L2, pd.DataFrame) else None, R2 if isinstance(R2, pd.DataFrame) else None, lk2, rk2, la2, ra2, t2, kw2), invalid=kind)
         try:
             fn = (PUBLIC if rng.random() < 0.3 else JOINS)[which]
             kk = dict(kw2, show_progress=False)
             if which == 'edit_distance':
-                out = fn(L2, R2, lk2, rk, la2, ra, t2, tokenizer=tok_arg, **kk)
+                out = fn(L2, R2, lk2, rk2, la2, ra2, t2, tokenizer=tok_arg, **kk)
             else:
-                out = fn(L2, R2, lk2, rk, la2, ra, tok_arg, t2, **kk)
+                out = fn(L2, R2, lk2, rk2, la2, ra2, tok_arg, t2, **kk)
             got = None
         except Exception as e:    # noqa: BLE001
             got = e
